@@ -1,11 +1,7 @@
-// ===== SPEC (radix_from): vstd's From specification hooks for the two Obj conversions verified in the radix unit =====
+// ===== SPEC (radix_from): vstd's From specification hooks for the Obj-from-String conversion verified in the radix unit =====
 verus! {
 impl vstd::std_specs::convert::FromSpecImpl<String> for Obj {
     open spec fn obeys_from_spec() -> bool { false }
     open spec fn from_spec(v: String) -> Obj { arbitrary() }
-}
-impl vstd::std_specs::convert::FromSpecImpl<BigInt> for Obj {
-    open spec fn obeys_from_spec() -> bool { false }
-    open spec fn from_spec(v: BigInt) -> Obj { arbitrary() }
 }
 } // verus!
